@@ -244,6 +244,12 @@ def check_apply(inp):
     wt = [o for o, d, idn in got if sounding(idn[0]) and inp['array'][int(o / t)] == 1]
     if times != wt:
         return {'aspect': 'note_times', 'observed': show_rats(times), 'expected': show_rats(wt)}
+    # the documented flag expand=False (the melody is not repeated cyclically: pulses beyond its notes get silences): the
+    # result still lasts exactly the metric's duration (seed C17-9 stopped one pulse early on grids that start on a rest)
+    if sum(inp['array']) > 0:
+        out2 = m.apply_to_melody(Melody(mk_notes(inp['notes'])), expand=False)
+        if out2.duration != D:
+            return {'aspect': 'duration-expand-false', 'observed': frac_str(out2.duration), 'expected': frac_str(D)}
     return None
 
 
